@@ -122,11 +122,20 @@ def _newton(ctx, st, rng):
 
 
 def _styled(pure, rng):
-    """the same map written in three styles a caller may legitimately use: pure, in-place (mutates and returns
-    its argument) and partial (mutates its argument, returns a new array)"""
-    style = rng.choice(["pure", "inplace", "partial"])
+    """the same map written in the styles a caller may legitimately use: pure, in-place (mutates and returns
+    its argument), partial (mutates its argument, returns a new array) and buffer (returns one persistent output array)"""
+    style = rng.choice(["pure", "inplace", "partial", "buffer"])
     if style == "pure":
         f = lambda x: pure(x)
+    elif style == "buffer":
+        # the map writes into and returns ONE persistent preallocated array (np.dot(..., out=buf) style): successive results share their memory
+        buf = {}
+        def f(x):
+            y = pure(x)
+            if "a" not in buf:
+                buf["a"] = np.empty_like(np.asarray(y, dtype=float))
+            buf["a"][...] = y
+            return buf["a"]
     elif style == "inplace":
         def f(x):
             x[:] = pure(x)
